@@ -113,6 +113,11 @@ Proof.
   - rewrite (rec_shared_is_panic D 0 slots frames Hs HD). discriminate.
 Qed.
 
+Lemma rec_through_code_is_guarded : forall D m slots frames depth,
+  1 <= slots -> (guard_limit + 2) * frames <= D ->
+  fault_raw code_sites D (FRecThrough m slots frames depth) <> RFatal.
+Proof. intros D m slots frames depth. apply rec_through_guarded. reflexivity. Qed.
+
 Lemma rec_through_fresh_fatal : forall S D m slots frames,
   mem_str m (s_fresh S) = true -> 1 <= frames ->
   fault_raw S D (FRecThrough m slots frames (D + 1)) = RFatal.
